@@ -92,8 +92,9 @@ func S() *rapid.Generator[string] {
 		s := rawS(t)
 		// Multi-line strings that begin with white space fall under the YAML-leg carve-out; one
 		// of them switches a whole document's YAML output leg off, so they are kept rare
-		// (about one string in 400) rather than one in 40.
-		if !YAMLLegOK(s) && rapid.IntRange(0, 9).Draw(t, "keepcarveout") != 0 {
+		// (about one string in 3000) rather than one in 40; a document holds a hundred strings or more.
+		// (rapid favours small and boundary integers, so the "keep" outcome is a mid-range value)
+		if !YAMLLegOK(s) && rapid.IntRange(0, 399).Draw(t, "keepcarveout") != 137 {
 			s = strings.TrimLeft(s, " \t\r\n")
 		}
 		return s
